@@ -64,7 +64,7 @@ static void check_format(Fmt const& f, Rng& r, bool thorough)
 			if (canonical && back != w) tfail(fn, "re-pack of an unpacked word", "word " + hex(w) + " field " + str(k) + " code " + hex(c), hex(w), hex(back) + " via " + fl(o, n));
 			for (int j = 0; j < n; ++j) if (f2u(o[j]) != f2u(o2[j])) { tfail(fn, "unpack(pack(unpack(p))) != unpack(p)", "word " + hex(w), fl(o, n), fl(o2, n)); break; }
 			// decoded value: code / scale exactly in double, rounded once to float (tolerance 1 ulp for the constant-multiply form)
-			double ex = (double)sval(c, b, f.sg) / (double)f.scale[k]; if (ex < -1) ex = -1; if (std::fabs((double)o[k] - ex) > 1.2e-7 * std::max(1e-30, std::fabs(ex))) tfail(fn, "decoded value", "field " + str(k) + " code " + hex(c), str(ex), str(o[k]));
+			double ex = (double)sval(c, b, f.sg) / (double)f.scale[k]; if (ex < -1) ex = -1; if (nabs((double)o[k] - ex) > 1.2e-7 * std::max(1e-30, std::fabs(ex))) tfail(fn, "decoded value", "field " + str(k) + " code " + hex(c), str(ex), str(o[k]));
 		}
 		off += b; }
 	// packing: quantisation, clamping, monotonicity, layout
@@ -75,7 +75,7 @@ static void check_format(Fmt const& f, Rng& r, bool thorough)
 			case 3: v = (float)r.real(1, 50); break; case 4: v = (float)r.real(-50, lo); break; case 5: v = u2f((uint32_t)r.next() & 0x807fffffu); break; case 6: v = (i & 8) ? INFINITY : -INFINITY; break; default: v = (float)r.real(lo, 1) * 1e-3f; }
 		x[k] = v; std::memcpy(y, x, sizeof x); ull w = f.pack(x); int offk = 0; for (int j = 0; j < k; ++j) offk += f.bits[j]; ull c = (w >> offk) & ((1ull << f.bits[k]) - 1); long cv = sval(c, f.bits[k], f.sg); ++cases;
 		double cl = std::min(1.0, std::max((double)lo, (double)v)); double want = cl * s; // exact in double
-		if (std::fabs((double)cv - want) > 0.5 + 1e-4 * 0.5 + std::fabs(want) * 1.3e-7) tfail(fn, v > 1 || v < lo ? "clamping" : "quantisation (more than half a step)", fl(x, n) + " component " + str(k), str(want), str(cv));
+		if (nabs((double)cv - want) > 0.5 + 1e-4 * 0.5 + std::fabs(want) * 1.3e-7) tfail(fn, v > 1 || v < lo ? "clamping" : "quantisation (more than half a step)", fl(x, n) + " component " + str(k), str(want), str(cv));
 		// the other components must not disturb field k, and field k sits at offset sum(bits[0..k-1])
 		y[(k + 1) % n] = (n > 1) ? 0.f : y[0]; if (n > 1) { ull w2 = f.pack(y); if (((w2 >> offk) & ((1ull << f.bits[k]) - 1)) != c) tfail(fn, "layout (field depends on another component)", fl(x, n), hex(c), hex((w2 >> offk) & ((1ull << f.bits[k]) - 1))); }
 		// monotone: a larger input never packs to a smaller code
@@ -120,13 +120,13 @@ static void small_floats(Rng& r, bool thorough)
 		uint32_t mx = std::max(w & 511, std::max((w >> 9) & 511, (w >> 18) & 511)); if ((mx >= 256 || e == 0) && back != w) tfail("packF3x9_E1x5", "re-pack of a canonical word", hex(w), hex(w), hex(back));
 		glm::vec3 v((float)std::ldexp(r.real(0, 1), r.range(-20, 15)), (float)std::ldexp(r.real(0, 1), r.range(-20, 15)), (float)std::ldexp(r.real(0, 1), r.range(-20, 15))); if (i % 5 == 0) v[r.range(0, 2)] = (float)r.real(30000, 70000); if (i % 7 == 0) v[r.range(0, 2)] = -(float)r.real(0, 10);
 		glm::vec3 d = glm::unpackF3x9_E1x5(glm::packF3x9_E1x5(v)); double m = std::max(0.0, std::max((double)v.x, std::max((double)v.y, (double)v.z))); m = std::min(m, E5max); int ee = m > 0 ? std::max(-16, (int)std::floor(std::log2(m))) : -16; double step = std::ldexp(1.0, ee + 1 - 9);
-		for (int k = 0; k < 3; ++k) { double t = std::min(E5max, std::max(0.0, (double)v[k])); if (std::fabs((double)d[k] - t) > step) { tfail("packF3x9_E1x5", v[k] > 32768 ? "component above 32768" : (v[k] < 0 ? "negative component" : "more than one mantissa step"), str(v.x) + "," + str(v.y) + "," + str(v.z), str(t), str(d[k])); break; } } }
+		for (int k = 0; k < 3; ++k) { double t = std::min(E5max, std::max(0.0, (double)v[k])); if (nabs((double)d[k] - t) > step) { tfail("packF3x9_E1x5", v[k] > 32768 ? "component above 32768" : (v[k] < 0 ? "negative component" : "more than one mantissa step"), str(v.x) + "," + str(v.y) + "," + str(v.z), str(t), str(d[k])); break; } } }
 	// RGBM
 	for (int i = 0; i < N / 4; ++i) { glm::vec3 c((float)r.real(0, 6), (float)r.real(0, 6), (float)r.real(0, 6)); if (i % 4 == 0) c *= 0.01f; glm::vec3 b = glm::unpackRGBM(glm::packRGBM(c)); ++cases;
-		for (int k = 0; k < 3; ++k) if (std::fabs(b[k] - c[k]) > 1e-5f * (1.f + c[k])) { tfail("packRGBM", "unpackRGBM(packRGBM(c)) != c", str(c.x) + "," + str(c.y) + "," + str(c.z), str(c[k]), str(b[k])); break; } glm::vec4 p = glm::packRGBM(c); if (!(p.w > 0 && p.w <= 1 && p.x <= 1.0001f && p.y <= 1.0001f && p.z <= 1.0001f)) tfail("packRGBM", "components outside [0,1]", str(c.x) + "," + str(c.y) + "," + str(c.z), "", str(p.x) + "," + str(p.y) + "," + str(p.z) + "," + str(p.w)); }
+		for (int k = 0; k < 3; ++k) if (nabs(b[k] - c[k]) > 1e-5f * (1.f + c[k])) { tfail("packRGBM", "unpackRGBM(packRGBM(c)) != c", str(c.x) + "," + str(c.y) + "," + str(c.z), str(c[k]), str(b[k])); break; } glm::vec4 p = glm::packRGBM(c); if (!(p.w > 0 && p.w <= 1 && p.x <= 1.0001f && p.y <= 1.0001f && p.z <= 1.0001f)) tfail("packRGBM", "components outside [0,1]", str(c.x) + "," + str(c.y) + "," + str(c.z), "", str(p.x) + "," + str(p.y) + "," + str(p.z) + "," + str(p.w)); }
 	// double-precision templates and half vectors (layout only; values: property C07)
-	for (int i = 0; i < N / 4; ++i) { double x = r.real(-0.2, 1.2); glm::dvec2 v(x, 0.5); glm::u8vec2 p = glm::packUnorm<glm::uint8>(v); double want = std::min(1.0, std::max(0.0, x)) * 255.0; ++cases; if (std::fabs((double)p.x - want) > 0.5 + 1e-9) tfail("packUnorm<uint8>(dvec)", "quantisation", str(x), str(want), str((int)p.x));
-		glm::i16vec2 q = glm::packSnorm<glm::int16>(glm::dvec2(0.5, x * 2 - 1)); double w2 = std::min(1.0, std::max(-1.0, x * 2 - 1)) * 32767.0; if (std::fabs((double)q.y - w2) > 0.5 + 1e-9) tfail("packSnorm<int16>(dvec)", "quantisation", str(x * 2 - 1), str(w2), str((int)q.y));
+	for (int i = 0; i < N / 4; ++i) { double x = r.real(-0.2, 1.2); glm::dvec2 v(x, 0.5); glm::u8vec2 p = glm::packUnorm<glm::uint8>(v); double want = std::min(1.0, std::max(0.0, x)) * 255.0; ++cases; if (nabs((double)p.x - want) > 0.5 + 1e-9) tfail("packUnorm<uint8>(dvec)", "quantisation", str(x), str(want), str((int)p.x));
+		glm::i16vec2 q = glm::packSnorm<glm::int16>(glm::dvec2(0.5, x * 2 - 1)); double w2 = std::min(1.0, std::max(-1.0, x * 2 - 1)) * 32767.0; if (nabs((double)q.y - w2) > 0.5 + 1e-9) tfail("packSnorm<int16>(dvec)", "quantisation", str(x * 2 - 1), str(w2), str((int)q.y));
 		float h1 = (float)r.real(-100, 100), h2 = (float)r.real(-1, 1); glm::uint ph = glm::packHalf2x16(glm::vec2(h1, h2)); if ((ph & 0xffff) != glm::packHalf1x16(h1) || (ph >> 16) != glm::packHalf1x16(h2)) tfail("packHalf2x16", "layout (first component in the least significant bits)", str(h1) + "," + str(h2), "", hex(ph));
 		glm::uint64 p4 = glm::packHalf4x16(glm::vec4(h1, h2, 1.f, 2.f)); if ((p4 & 0xffff) != glm::packHalf1x16(h1) || ((p4 >> 16) & 0xffff) != glm::packHalf1x16(h2) || (p4 >> 48) != glm::packHalf1x16(2.f)) tfail("packHalf4x16", "layout", str(h1) + "," + str(h2), "", hex(p4));
 		glm::u16vec3 pv = glm::packHalf(glm::vec3(h1, h2, 1.f)); if (pv.x != glm::packHalf1x16(h1) || pv.y != glm::packHalf1x16(h2)) tfail("packHalf", "vector overload differs from packHalf1x16", str(h1), "", ""); }
@@ -135,11 +135,11 @@ static void small_floats(Rng& r, bool thorough)
 	// end codes decode to exactly 0 / +-1, re-packing a decoded code is lossless
 #define GEN_U(FT, UT, NAME) { const long double mx = (long double)std::numeric_limits<UT>::max(); for (int i = 0; i < N / 8; ++i) { UT c = (UT)r.next(); if (i == 0) c = 0; if (i == 1) c = std::numeric_limits<UT>::max(); if (i == 2) c = (UT)(std::numeric_limits<UT>::max() - 1); if (i % 5 == 3) c = (UT)(std::numeric_limits<UT>::max() - (UT)(r.next() & 0x7f)); \
 		glm::vec<2, UT> pv(c, (UT)7); glm::vec<2, FT> d = glm::unpackUnorm<FT>(pv); ++cases; long double want = (long double)c / mx; \
-		if (fabsl((long double)d.x - want) > 0.25L / mx + 2 * (long double)std::numeric_limits<FT>::epsilon() || (c == std::numeric_limits<UT>::max() && d.x != (FT)1) || (c == 0 && d.x != (FT)0)) tfail(NAME, "decoded value", str((double)c), str((double)want), str((double)d.x)); \
+		if (nabs((long double)d.x - want) > 0.25L / mx + 2 * (long double)std::numeric_limits<FT>::epsilon() || (c == std::numeric_limits<UT>::max() && d.x != (FT)1) || (c == 0 && d.x != (FT)0)) tfail(NAME, "decoded value", str((double)c), str((double)want), str((double)d.x)); \
 		glm::vec<2, UT> back = glm::packUnorm<UT>(d); if (back.x != c || back.y != (UT)7) tfail(NAME, "re-pack of a decoded code", str((double)c), str((double)c), str((double)back.x)); } }
 #define GEN_S(FT, IT, NAME) { const long double mx = (long double)std::numeric_limits<IT>::max(); for (int i = 0; i < N / 8; ++i) { IT c = (IT)r.next(); if (c == std::numeric_limits<IT>::min()) c = 0; if (i == 1) c = std::numeric_limits<IT>::max(); if (i == 2) c = (IT)(-std::numeric_limits<IT>::max()); if (i % 5 == 3) c = (IT)(std::numeric_limits<IT>::max() - (IT)(r.next() & 0x3f)); if (i % 5 == 4) c = (IT)(-(std::numeric_limits<IT>::max() - (IT)(r.next() & 0x3f))); if (c == std::numeric_limits<IT>::min()) c = (IT)1; /* the most negative code is not canonical */ \
 		glm::vec<2, IT> pv(c, (IT)-3); glm::vec<2, FT> d = glm::unpackSnorm<FT>(pv); ++cases; long double want = (long double)c / mx; \
-		if (fabsl((long double)d.x - want) > 0.25L / mx + 2 * (long double)std::numeric_limits<FT>::epsilon() || (c == std::numeric_limits<IT>::max() && d.x != (FT)1) || (c == -std::numeric_limits<IT>::max() && d.x != (FT)-1)) tfail(NAME, "decoded value", str((double)c), str((double)want), str((double)d.x)); \
+		if (nabs((long double)d.x - want) > 0.25L / mx + 2 * (long double)std::numeric_limits<FT>::epsilon() || (c == std::numeric_limits<IT>::max() && d.x != (FT)1) || (c == -std::numeric_limits<IT>::max() && d.x != (FT)-1)) tfail(NAME, "decoded value", str((double)c), str((double)want), str((double)d.x)); \
 		glm::vec<2, IT> back = glm::packSnorm<IT>(d); if (back.x != c || back.y != (IT)-3) tfail(NAME, "re-pack of a decoded code", str((double)c), str((double)c), str((double)back.x)); } }
 	GEN_U(float, glm::uint8, "unpackUnorm<float>(u8vec)") GEN_U(float, glm::uint16, "unpackUnorm<float>(u16vec)") GEN_U(double, glm::uint8, "unpackUnorm<double>(u8vec)") GEN_U(double, glm::uint16, "unpackUnorm<double>(u16vec)") GEN_U(double, glm::uint32, "unpackUnorm<double>(u32vec)")
 	GEN_S(float, glm::int8, "unpackSnorm<float>(i8vec)") GEN_S(float, glm::int16, "unpackSnorm<float>(i16vec)") GEN_S(double, glm::int8, "unpackSnorm<double>(i8vec)") GEN_S(double, glm::int16, "unpackSnorm<double>(i16vec)") GEN_S(double, glm::int32, "unpackSnorm<double>(i32vec)")
@@ -152,10 +152,10 @@ static void scalar_sweep(bool thorough, uint64_t seed)
 	for (int t = 0; t < 16; ++t) th.emplace_back([t, stride, off, &cnt]() { long c = 0;
 		for (uint64_t u = off + (uint64_t)t * stride; u < (1ull << 32); u += 16 * stride) { float x = u2f((uint32_t)u); if (std::isnan(x)) continue; ++c;
 			double cu = std::min(1.0, std::max(0.0, (double)x)), cs = std::min(1.0, std::max(-1.0, (double)x));
-			int a = glm::packUnorm1x8(x); if (std::fabs(a - cu * 255.0) > 0.5001) tfail("Unorm1x8", "scalar sweep over float patterns", hex(u), str(cu * 255.0), str(a));
-			int b = glm::packUnorm1x16(x); if (std::fabs(b - cu * 65535.0) > 0.51) tfail("Unorm1x16", "scalar sweep over float patterns", hex(u), str(cu * 65535.0), str(b));
-			int s8 = (int8_t)glm::packSnorm1x8(x); if (std::fabs(s8 - cs * 127.0) > 0.5001) tfail("Snorm1x8", "scalar sweep over float patterns", hex(u), str(cs * 127.0), str(s8));
-			int s16 = (int16_t)glm::packSnorm1x16(x); if (std::fabs(s16 - cs * 32767.0) > 0.51) tfail("Snorm1x16", "scalar sweep over float patterns", hex(u), str(cs * 32767.0), str(s16)); }
+			int a = glm::packUnorm1x8(x); if (nabs(a - cu * 255.0) > 0.5001) tfail("Unorm1x8", "scalar sweep over float patterns", hex(u), str(cu * 255.0), str(a));
+			int b = glm::packUnorm1x16(x); if (nabs(b - cu * 65535.0) > 0.51) tfail("Unorm1x16", "scalar sweep over float patterns", hex(u), str(cu * 65535.0), str(b));
+			int s8 = (int8_t)glm::packSnorm1x8(x); if (nabs(s8 - cs * 127.0) > 0.5001) tfail("Snorm1x8", "scalar sweep over float patterns", hex(u), str(cs * 127.0), str(s8));
+			int s16 = (int16_t)glm::packSnorm1x16(x); if (nabs(s16 - cs * 32767.0) > 0.51) tfail("Snorm1x16", "scalar sweep over float patterns", hex(u), str(cs * 32767.0), str(s16)); }
 		cnt += c; });
 	for (auto& x : th) x.join(); std::lock_guard<std::mutex> l(g_mu); count(thorough ? "scalar pack functions over all non-NaN float patterns" : "scalar pack functions over every 4099th float pattern", cnt.load());
 }
